@@ -29,7 +29,7 @@ let keytype_of spec =
 let sign_len op =
   let f = split ':' op in
   match List.hd f with
-  | "mldsa" -> 32 | "slhdsa" -> ios (List.nth f 1) / 4 | "rsapss" -> ios (List.nth f 1)
+  | "mldsa" | "mldsapre" -> 32 | "slhdsa" -> ios (List.nth f 1) / 4 | "rsapss" -> ios (List.nth f 1)
   | s -> failwith ("sign " ^ s)
 let loose_of op =
   let f = split ':' op in
